@@ -20,6 +20,13 @@ var specs = []Spec{
 		{Name: "seq", Pkg: "./mon/c04", Procs: 1},
 		{Name: "coop", Pkg: "./mon/chainco", Env: []string{"VERIF_PROP=C04"}},
 	}},
+	{ID: "C05", Level: "exploration", MinDistinct: 50, Engines: []Engine{
+		{Name: "seq", Pkg: "./mon/c05", Procs: 1},
+	}},
+	{ID: "C06", Level: "exploration", MinDistinct: 50, Engines: []Engine{
+		{Name: "seq", Pkg: "./mon/c06", Procs: 1},
+		{Name: "par", Pkg: "./mon/c06", Race: true, Env: []string{"VERIF_MODE=par"}, DeathSig: "C06/par:process-died"},
+	}},
 	{ID: "C08", Level: "exploration", MinDistinct: 50, Engines: []Engine{
 		{Name: "seq", Pkg: "./mon/c08", Procs: 1},
 	}},
